@@ -269,7 +269,9 @@ commit (`LUDecomposition.h:65-71`): it is `solveVecS s b b`. -/
 
 /-- `permuteCopy(b, piv, x)`: `if (piv_length != A.size()) X.clear(); X.resize(piv_length)`
 (`std::vector::resize` keeps the prefix and value-initialises new elements), then every element is
-assigned -/
+assigned.  `A` is the *operand* `b`: the `clear()` does not look at the output's length, and since
+`solve` has refused `b.size() != m` before (`piv.size() = m`) the branch is dead in every call; it is
+transcribed as written. -/
 def permuteCopyVS (b : Array α) (piv : Array Nat) (x : Array α) : Res (Array α) :=
   loop piv.size (fun i x => do
     let pi ← vrd piv i
